@@ -547,7 +547,7 @@ extern FiPtr	fiListCons	(FiWord, FiPtr);
 #define fiHALT(r,t,i)			((r) = (t) fiHalt(i))
 
 #define fiLIST_NIL(r,t)			((r) = (t) ((FiPtr)0))
-#define fiLIST_EMPTYP(r,t,l)		((r) = (t) (l))
+#define fiLIST_EMPTYP(r,t,l)		((r) = (t) !(l))
 #define fiLIST_HEAD(r,t,l)		((r) = (t) (((FiList *)l)->data))
 #define fiLIST_TAIL(r,t,l)		((r) = (t) ((((FiList *)l)->next)))
 
